@@ -235,3 +235,28 @@ Example C14_schema_len_trailer_with_slash :
   SchemaScanner.schema_len (SchemaLenProofs.bytes_of [91; 49; 44; 32; 50; 93; 32; 47; 47; 32; 120]%N) = SchemaScanner.VErr 304 7 /\
   SchemaScanner.schema_len (SchemaLenProofs.bytes_of [49; 32; 47]%N) = SchemaScanner.VErr 303 2.
 Proof. exact SchemaLenProofs.schema_len_trailer_with_slash. Qed.
+
+(* CRLF layout (fix 542fa4b) and a ### comment opened after the text of an inline annotation
+   (fix 0196ace); examples evaluated in SchemaScan/SchemaLenProofs.v.  For texts without / # @ nothing
+   changes: C06_schema_scanner_agrees_with_json_scanner still holds with the same statement. *)
+Example C14_schema_crlf_layout :
+  snd (SchemaScanner.scan false SchemaLenProofs.crlf_text) = SchemaScanner.Done /\
+  snd (SchemaScanner.scan false SchemaLenProofs.lf_text) = SchemaScanner.Done /\
+  SchemaLenProofs.ev_types (filter SchemaLenProofs.not_newline (fst (SchemaScanner.scan false SchemaLenProofs.crlf_text))) =
+  SchemaLenProofs.ev_types (filter SchemaLenProofs.not_newline (fst (SchemaScanner.scan false SchemaLenProofs.lf_text))) /\
+  List.length (fst (SchemaScanner.scan false SchemaLenProofs.crlf_text)) =
+    Datatypes.S (List.length (fst (SchemaScanner.scan false SchemaLenProofs.lf_text))) /\
+  map (fun e => (SchemaScanner.ev_code (SchemaScanner.e_type e), SchemaScanner.e_begin e, SchemaScanner.e_end e))
+      (firstn 4 (skipn 10 (fst (SchemaScanner.scan false SchemaLenProofs.crlf_text)))) =
+    [(13, 8, 11); (20, 12, 12); (20, 13, 13); (4, 14, 14)]%N.
+Proof. exact SchemaLenProofs.crlf_layout. Qed.
+
+Example C14_schema_annotation_then_block_comment :
+  map (fun e => (SchemaScanner.ev_code (SchemaScanner.e_type e), SchemaScanner.e_begin e, SchemaScanner.e_end e))
+      (fst (SchemaScanner.scan false SchemaLenProofs.annotation_then_block_comment)) =
+    [(0, 0, 0); (1, 0, 0); (12, 2, 3); (14, 5, 5); (15, 5, 6); (13, 2, 6); (20, 18, 18)]%N /\
+  snd (SchemaScanner.scan false SchemaLenProofs.annotation_then_block_comment) = SchemaScanner.Done /\
+  SchemaScanner.scan true SchemaLenProofs.annotation_then_block_comment =
+    SchemaScanner.scan false SchemaLenProofs.annotation_then_block_comment /\
+  SchemaScanner.schema_len SchemaLenProofs.annotation_then_block_comment = SchemaScanner.VLen 18.
+Proof. exact SchemaLenProofs.annotation_then_block_comment_scan. Qed.
